@@ -12,7 +12,12 @@ Record obs := mkobs {
   ob_sum : N;           (* sum of all balances (uint64 arithmetic) *)
   ob_naccts : N;
   ob_commits : N;       (* database commits made by this delivery *)
-  ob_notrace : bool     (* no commit => the store is byte-identical to before (compared key by key by the harness) *)
+  ob_notrace : bool;    (* no commit => the store is byte-identical to before (compared key by key by the harness) *)
+  ob_skip : bool        (* this block was handed over inside a BATCH (several blocks queued for the validator's post-processor,
+                           worked off lowest height first): the implementation is only observed after the last block of
+                           the batch; the operations of a batch are listed in the order the post-processor takes them;
+                           every member carries the observation made after the WHOLE batch, with ob_acc = this block is
+                           retrievable then; the per-operation comparison with the model is made at the last member only *)
 }.
 
 Record dump := mkdump {
@@ -53,7 +58,7 @@ Record hist := mkhist {
 Definition sum_bal (l : ledger) : N := fold_left (fun s kv => wadd s (bal (snd kv))) (accts l) 0.
 
 Definition obs_of (n : node) (acc crash : bool) : obs :=
-  mkobs acc crash (top n) (top_h n) (top_cd n) (staked (ldg n)) (sum_bal (ldg n)) (N.of_nat (length (accts (ldg n)))) 0 true.
+  mkobs acc crash (top n) (top_h n) (top_cd n) (staked (ldg n)) (sum_bal (ldg n)) (N.of_nat (length (accts (ldg n)))) 0 true false.
 
 Definition obs_eqb (a b : obs) : bool :=
   Bool.eqb (ob_acc a) (ob_acc b) && Bool.eqb (ob_crash a) (ob_crash b) && (ob_top a =? ob_top b) &&
@@ -145,7 +150,7 @@ Definition run_op (st : runstate) (op : hop) : runstate :=
       let acc := match out with Accepted => true | _ => false end in
       let crash := match out with Crashed _ => true | _ => false end in
       let amb' := r_amb st || amb in
-      let bad1 := if amb' || obs_eqb (obs_of n1 (match get_block n1 (b_hash (blk i)) with Some _ => true | None => false end) crash) o
+      let bad1 := if amb' || ob_skip o || obs_eqb (obs_of n1 (match get_block n1 (b_hash (blk i)) with Some _ => true | None => false end) crash) o
                   then [] else [(r_idx st, 1)] in
       let bad2 := match d with
                   | Some dd => if amb' || dump_eqb (dump_of n1) dd then [] else [(r_idx st, 2)]
